@@ -500,7 +500,11 @@ def pair_ok(k, a, b):
 # ----------------------------------------------------------------------------- the check
 
 FAMILIES = ["speciation", "batch", "exchange", "surface", "gas", "kinetics", "mix"]
-TRANSFORMS = ["units", "water", "perm", "renum", "dup", "spread", "mixorder", "selfmix", "mixscale", "rebatch", "mixassoc", "combo"]
+TRANSFORMS = ["units", "water", "perm", "renum", "dup", "spread", "mixorder", "selfmix", "mixscale", "rebatch", "combo"]
+# "mixassoc" ((a+b) saved, then +c) is implemented in the renderer but not scheduled: the saved intermediate is weighted by
+# its water mass *after* the first reaction step, which differs from the sum of the end members' water by ~1e-8 relative
+# (water formed/consumed on re-equilibration), so the two routes agree only to 1-2e-8 on the unchanged engine -- it is
+# not an exact equivalence of the engine's own model.
 
 UNITS = ["mol/kgw", "mmol/kgw", "umol/kgw", "g/kgw", "mg/kgw", "ug/kgw"]
 UNIT_SPELL = {"mol/kgw": ["mol/kgw", "Mol/kgw", "moles/kgw"], "mmol/kgw": ["mmol/kgw", "mMol/kgw", "millimol/kgw"], "umol/kgw": ["umol/kgw", "micromol/kgw"],
